@@ -67,6 +67,12 @@ def Flag.fires (user : Bool) : Flag → Option Bool
   | .absent => some true
   | .other _ => none
 
+/-- `record_provenance` as the caller gives it: `True`, `False`, or `None`/omitted, which every public
+entry point documents as "treated as True" (`if record_provenance is None: record_provenance = True`). -/
+def resolveFlag : Option Bool → Bool
+  | some b => b
+  | none => true
+
 /-- Execute a call path on a provenance table: every site that fires appends the row `mk s`. -/
 def execPath {R : Type} (user : Bool) (mk : Site → R) : List R → List Site → Option (List R)
   | prov, [] => some prov
